@@ -304,7 +304,7 @@ impl Prop for C47 {
     }
     fn run_shard(&self, cfg: &ShardCfg) -> ShardResult {
         let mut d = Driver::new(cfg, "C47");
-        let n = cfg.share(cfg.tier.pick(1_500, 60_000));
+        let n = cfg.share(cfg.tier.pick(4_000, 160_000));
         d.run("file", 0, n, 40, case_strategy(), &mk_env, &check);
         d.finish()
     }
